@@ -137,6 +137,8 @@ def resolve_rule(ctx):
 
 def run(ctx):
     P, cg = ctx.prog, ctx.cg
+    from .C07 import can_run_is_the_pattern_loop
+    can_run_is_the_pattern_loop(ctx)
     # precondition: plain getters
     for nm, fld in (("absolutePath", "absolute_cache_"), ("relativePath", "relative_cache_")):
         f = ctx.fn1("Oomd::CgroupPath::" + nm)
